@@ -127,6 +127,7 @@ func main() {
 	r.FloorCount("creates_ok", int64(r.Pick(8, 80)))
 	r.FloorCount("deletes_ok", int64(r.Pick(5, 50)))
 	r.FloorCount("restores_ok", int64(r.Pick(2, 20)))
+	r.FloorCount("catalogue_internal_name_probes", int64(r.Pick(3, 30)))
 	r.FloorCount("restores_broken_off", int64(r.Pick(1, 10)))
 	r.FloorCount("recreated_tables_read_empty", int64(r.Pick(2, 20)))
 	r.FloorCount("cross_table_isolation_dumps", int64(r.Pick(150, 1500)))
@@ -396,6 +397,37 @@ func runHistory(r *ev.Run, id caseID) {
 			r.Count("restores_ok", 1)
 			sawRestore = true
 			r.Nontrivial(fmt.Sprint("restore", id.Seed, i))
+		case k < 29: // names that are not tables but look into the catalogue
+			probes := []string{"sys/idseq", "sys", name + "/", "../tables/" + name, name + "/..", "sys/idseq/"}
+			n := probes[g.Intn(len(probes))]
+			if _, isTable := cat[n]; isTable {
+				continue
+			}
+			w.Ops = append(w.Ops, fmt.Sprintf("delete(%q), lookup(%q), restore(%q)", n, n, n))
+			if err := e.DeleteTable(n); err == nil {
+				fail("delete-succeeded-for-unknown-name", fmt.Sprintf("delete(%q) succeeded although no table of that name exists", n))
+				return
+			}
+			if _, err := e.GetTable(n); err == nil {
+				fail("lookup-differs-from-catalogue", fmt.Sprintf("lookup(%q) found a table although none of that name was created", n))
+				return
+			}
+			if strings.Contains(n, "/") {
+				rd, cleanup, err := cluster.SnapshotStream(n, []model.KV{{K: "k", V: []byte("v")}}, nil)
+				if err != nil {
+					r.Inconclusive("snapshot stream: " + err.Error())
+					return
+				}
+				rerr := e.Restore(n, rd)
+				cleanup()
+				if rerr == nil {
+					// whatever a restore into such a name does, the catalogue must stay what the model says;
+					// the next creations and listings judge that. A success is recorded.
+					r.Count("restores_into_catalogue_internal_names_answered_ok", 1)
+				}
+			}
+			r.Count("catalogue_ops", 3)
+			r.Count("catalogue_internal_name_probes", 1)
 		case k < 34: // list + lookups
 			w.Ops = append(w.Ops, "list")
 			ts, err := e.GetTables()
@@ -1391,8 +1423,20 @@ func runReconcileRace(r *ev.Run, id caseID) {
 				return
 			}
 			delete(cat, del)
-			// the pass that stops the shard is the next one: run it alone
-			_ = e.Manager.VerifReconcile()
+			// the pass that stops the shard is the next one: run it alone (a pass that ends with an
+			// error has not reconciled: repeated, bounded)
+			var rerr error
+			for a := 0; a < 20; a++ {
+				if rerr = e.Manager.VerifReconcile(); rerr == nil {
+					break
+				}
+				r.Count("reconcile_passes_ended_with_an_error: "+rerr.Error(), 1)
+				time.Sleep(50 * time.Millisecond)
+			}
+			if rerr != nil {
+				r.Inconclusive("reconciliation keeps failing: " + rerr.Error())
+				return
+			}
 		} else {
 			w.Ops = append(w.Ops, fmt.Sprintf("create(%s) || reconcile || reconcile", name))
 			if cerr != nil {
